@@ -420,10 +420,11 @@ func Run(cfg Config) (int, error) {
 	}
 	rnd := hx.NewRand(cfg.Seed ^ 0xC03)
 	sampled := 25
-	sizes := [][2]int{{3, 2}}
+	// (4, 2): a threshold of at most half the keypers, where two disjoint sets of signers exist
+	sizes := [][2]int{{3, 2}, {4, 2}}
 	if cfg.Tier == "thorough" {
 		sampled = 100
-		sizes = [][2]int{{3, 2}, {4, 3}, {5, 3}, {3, 3}, {2, 1}}
+		sizes = [][2]int{{3, 2}, {4, 3}, {5, 3}, {3, 3}, {2, 1}, {4, 2}, {5, 2}, {3, 1}}
 	}
 	for _, fl := range []noderig.Flavour{noderig.Core, noderig.Gnosis, noderig.Service} {
 		for _, sz := range sizes {
@@ -436,7 +437,14 @@ func Run(cfg Config) (int, error) {
 				if err != nil {
 					return 2, err
 				}
-				for k := 0; k < sampled && !r.stop; k++ {
+				samples := sampled
+				if cfg.Tier != "thorough" && (n != 3 || t != 2) {
+					samples = sampled / 2
+				}
+				if cfg.Tier == "thorough" && 2*t <= n {
+					samples = sampled / 4
+				}
+				for k := 0; k < samples && !r.stop; k++ {
 					// which keypers are triggered
 					var trig []int
 					for len(trig) < t {
